@@ -8,7 +8,7 @@ out = driver.Outcome()
 wd = tempfile.mkdtemp(prefix='e57-kani-one.')
 t0 = time.time()
 try:
-    kani_run.run_groups('C12', [grp], repo, wd, out, 'quick', [], driver.match_known)
+    kani_run.run_groups(os.environ.get('PROP','C12'), [grp], repo, wd, out, 'quick', [], driver.match_known)
 finally:
     shutil.rmtree(wd, ignore_errors=True)
 print('wall %.1f' % (time.time() - t0))
